@@ -159,7 +159,7 @@ def must_err_pairs():
 
 
 def run(tier, replay=None):
-    chk = common.Check('C16', tier, 'exploration',
+    chk = common.Check('C16', tier, 'fault_enumeration',
                        'textual mutants of the real wowm corpus, one operator per static rule, each confirmed by an independent '
                        'reference checker to break exactly that rule, run through the real generator in scratch trees; judged: '
                        'exit status == the rule\'s status and stderr names the mutated object; the unmodified tree must exit 0; '
